@@ -256,6 +256,12 @@ def rule_fail(chk):
         problems = []
         if not handler_catches_all_exceptions(h):
             problems.append("handler catches less than Exception")
+        elif h.type is not None and unparse(h.type) != "BaseException":
+            # "if a serializer raises ... the logging call returns normally": a serializer failing with a BaseException that is not an
+            # Exception (asyncio.CancelledError from a cancelled future, GeneratorExit, an application's own BaseException subclass)
+            # is a raising serializer too; the pinned code contains it with a bare except
+            problems.append("the handler is `except %s`: a serializer raising a BaseException outside Exception (e.g. asyncio.CancelledError) escapes the logging call and neither "
+                            "diagnostic message is logged" % unparse(h.type))
         quiet = common.quiet_exc_edges(ctx, lw)
         wtc = [(n, c) for n, c, m in ctx.calls_to(lw, wt)]
         lmc = [(n, c) for n, c, m in ctx.calls_to(lw, lm)]
